@@ -95,11 +95,14 @@ class ProcessCallback:
     async def run(self) -> None:
         """Run the callback"""
         if not self._cancelled:
+            # (the handle may be cancelled while the callback is running, e.g. by the callback itself: that clears the
+            # references held here, but the callback is under way all the same and its failure is still the process's)
+            process, callback = self._process, self._callback
             try:
-                await self._callback(*self._args, **self._kwargs)
+                await callback(*self._args, **self._kwargs)
             except Exception:
                 exc_info = sys.exc_info()
-                self._process.callback_excepted(self._callback, exc_info[1], exc_info[2])
+                process.callback_excepted(callback, exc_info[1], exc_info[2])
             finally:
                 self._done()
 
